@@ -46,10 +46,10 @@ var c02Decoders = []string{
 // summaries used by the bounds engine; each one is verified below before it is relied upon.
 func c02Summaries() map[string]core.Summary {
 	return map[string]core.Summary{
-		"message.parseExtOpt":            {Fn: "message.parseExtOpt", Ret: 0, Param: 0},
-		"message.Option.UnmarshalValue":  {Fn: "message.Option.UnmarshalValue", Ret: 0, Param: 1},
-		"message.Option.Unmarshal":       {Fn: "message.Option.Unmarshal", Ret: 0, Param: 1},
-		"message.Options.Unmarshal":      {Fn: "message.Options.Unmarshal", Ret: 0, Param: 1},
+		"message.parseExtOpt":              {Fn: "message.parseExtOpt", Ret: 0, Param: 0},
+		"message.Option.UnmarshalValue":    {Fn: "message.Option.UnmarshalValue", Ret: 0, Param: 1},
+		"message.Option.Unmarshal":         {Fn: "message.Option.Unmarshal", Ret: 0, Param: 1},
+		"message.Options.Unmarshal":        {Fn: "message.Options.Unmarshal", Ret: 0, Param: 1},
 		"tcp/coder.Coder.DecodeWithHeader": {Fn: "tcp/coder.Coder.DecodeWithHeader", Ret: 0, Param: 1},
 	}
 }
@@ -513,6 +513,10 @@ func c02TokenLen(e *Env, sums map[string]core.Summary) {
 			// the token slice: data[:tokenLen]
 			n++
 			if s.Parent() != f {
+				// the helper reads and checks the length itself
+				if core.NewBounds(e.P, s.Parent(), sums).ValueAtMost(s.High, core.Term{K: 8}, in) {
+					return
+				}
 				// sliced inside a helper analysed as part of the decoder: the bound is what every call site establishes for the argument
 				hv := core.Resolve(s.High)
 				sites := core.SitesOf(s.Parent())
